@@ -14,6 +14,7 @@ LEVEL = 'exploration'
 RULE = ("A Hypothesis RuleBasedStateMachine drives one MultiValueTracker (base Welford or ExponentialSmoothing(alpha)) with update "
         "dictionaries over a pool of str/int/float/tuple keys, so late keys and omitted keys are frequent; value family is either "
         "exact (ixv Q rationals: oracle is ==) or float (Python float/int, np.float64/float32/int64/uint8/uint64: oracle within rounding). Rules "
+        "In half of the runs the caller keeps updating the base tracker OBJECT it passed to the constructor (keys that appear later must still start from scratch). "
         "'zero_out' and 'cancel' CONSTRUCT zero-sum states from the model state. After every update: keys == keys ever seen, every "
         "value == closed-form statistic of the key's zero-filled series since first appearance, N == number of update calls, "
         "get_normalized(): <=1 key -> raw; zero sum -> all 0.0 and finite; else ratios preserved and sum 1. Non-trivial: >=2 keys, "
@@ -46,7 +47,7 @@ def _same_value(a, b):
 
 
 class Sim:
-    def __init__(self, base, alpha, family):
+    def __init__(self, base, alpha, family, touch_base=False):
         from ixai.utils.tracker import MultiValueTracker, WelfordTracker, ExponentialSmoothingTracker
         self.family = family
         self.dynamic = base == 'es'
@@ -54,6 +55,7 @@ class Sim:
         a = self.alpha if family == 'exact' else float(self.alpha)
         self.base_obj = ExponentialSmoothingTracker(alpha=a) if self.dynamic else WelfordTracker()
         self.t = MultiValueTracker(self.base_obj)
+        self.touch_base = touch_base     # the caller goes on using the tracker object it passed in (e.g. as an overall statistic)
         self.model = ref.MultiStat(self.dynamic, self.alpha)
         self.n = 0
         self.late = False
@@ -67,6 +69,8 @@ class Sim:
         """op: list of [key_index, value_spec].  Returns (key, detail) on mismatch."""
         upd = {}
         exact_upd = {}
+        if self.touch_base:
+            self.base_obj.update(3 if self.family == 'exact' else 3.0)     # the caller's own use of ITS tracker: keys created later still start from scratch
         for ki, v in op:
             val = _mk(v, self.family)
             upd[_key(ki)] = val
@@ -195,7 +199,7 @@ class Sim:
 
 
 def run_case(case):
-    sim = Sim(case['base'], case['alpha'], case['family'])
+    sim = Sim(case['base'], case['alpha'], case['family'], case.get('touch_base', False))
     for op in case['ops']:
         err = sim.apply(op)
         if err:
@@ -224,10 +228,10 @@ def make_machine():
             self.sim = None
 
         @initialize(base=st.sampled_from(['welford', 'es']), alpha=gen.alpha01(closed_zero=False),
-                    family=st.sampled_from(['exact', 'float']))
-        def setup(self, base, alpha, family):
-            self.cfg = {'base': base, 'alpha': alpha, 'family': family}
-            self.sim = Sim(base, alpha, family)
+                    family=st.sampled_from(['exact', 'float']), touch=st.booleans())
+        def setup(self, base, alpha, family, touch):
+            self.cfg = {'base': base, 'alpha': alpha, 'family': family, 'touch_base': touch}
+            self.sim = Sim(base, alpha, family, touch)
             self.ops = []
 
         def _do(self, op):
